@@ -1239,3 +1239,39 @@ def rf133(run):
                           (fn, cls, size, 'in registers' if got else 'on the stack', used, 'integer' if cls == 1 else 'SSE',
                            'in registers' if want else 'on the stack'), line=ifs[0]['l'])
     return n
+
+
+# ---------------------------------------------------------------------------------------------
+# RF144: the extension of call result i is chosen from the type of result i
+# ---------------------------------------------------------------------------------------------
+
+def rf144(run):
+    rule = 'RF144'
+    run.rule(rule, 'x86-64 machinize_call, loop over the results of the prototype: the extension applied to result i (a callee need not '
+                   'extend a narrow integer in rax / rdx) is get_ext_code of proto->res_types[i], i the loop variable — not a counter of '
+                   'integer or SSE registers, which lags behind i when a floating-point result comes first')
+    tu = run.tu('gen')
+    f = tu.func('machinize_call')
+    run.functions_analysed.add(('gen', f.name))
+    loops = [l for l in f.walk() if l['k'] == 'ForStmt' and l['c'][1] is not None and 'nres' in F.src(l['c'][1])]
+    if not loops:
+        raise F.AnalysisBroken('machinize_call: the loop over the results was not found')
+    n = 0
+    for lp in loops:
+        cond = F.strip(lp['c'][1])
+        if cond['k'] != 'BinaryOperator':
+            continue
+        iv = F.src(F.strip(cond['c'][0]))
+        for x in F.walk(lp['c'][3]):
+            if x['k'] == 'CallExpr' and x.get('callee') == 'get_ext_code':
+                a = F.strip(F.call_args(x)[0])
+                ok = a['k'] == 'ArraySubscriptExpr' and 'res_types' in F.src(a['c'][0]) and F.src(F.strip(a['c'][1])) == iv
+                n += 1
+                run.ob(rule, (x['l'],), ok, {'site': '%s:%d' % (f.relfile(), x['l']), 'argument': F.src(a), 'loop variable': iv})
+                if not ok:
+                    run.violation(rule, f, 'extension of a result chosen from another result', 'the extension of result %s is `%s`: with a prototype '
+                                  '(d, i32) the index of the type lags behind the result (the register counter is still 0 for the second result), so '
+                                  'the i32 delivered in rax is not sign-extended — or another result\'s extension is applied' % (iv, F.src(x)[:60]), line=x['l'])
+    if n == 0:
+        raise F.AnalysisBroken('machinize_call: no get_ext_code in the loop over the results')
+    return n
